@@ -7,7 +7,7 @@
    that could not be extracted makes Gen/C20.v ill-typed; a harmless edit of the source changes Gen/C20.v and
    nothing else. *)
 From Coq Require Import ZArith List Bool Arith Lia.
-From BNP Require Import Base.Prims Model.C20 Proofs.C20 Proofs.C20_link Gen.C20 Corr.C20.
+From BNP Require Import Base.Prims Model.C20 Proofs.C20 Proofs.C20_link Proofs.C20_chain Gen.C20 Corr.C20.
 Import ListNotations.
 Open Scope nat_scope.
 
@@ -35,6 +35,35 @@ Theorem gen_sites_sound : forall sid np site p s,
 Proof.
   intros sid np site p s Hin Hsh Hwf.
   eapply site_instance_sound; eauto. eapply gen_site_safe; eauto.
+Qed.
+
+(* round 6: the sites registered for the in-place writes OUTSIDE the anchored files (package-wide write gate): each of
+   them has a program generated from the current source, and every run-time instance of it leaves its inputs unchanged *)
+Lemma round6_ids_registered : forallb (fun k => existsb (Z.eqb k) site_ids) round6_site_ids = true.
+Proof. vm_compute. reflexivity. Qed.
+
+Theorem round6_sites_sound : forall sid,
+  In sid round6_site_ids ->
+  exists np site, In (sid, (np, site)) gen_site_table /\ forall p s, shape p = shape site -> wf_init np s -> unchanged np s (run p s).
+Proof.
+  intros sid Hin.
+  pose proof (proj1 (forallb_forall _ _) round6_ids_registered sid Hin) as He.
+  apply existsb_exists in He. destruct He as [k [Hk Hek]]. apply Z.eqb_eq in Hek. subst k.
+  rewrite <- gen_sites_complete in Hk. apply in_map_iff in Hk.
+  destruct Hk as [[sid' [np site]] [Hf Hk]]. simpl in Hf. subst sid'.
+  exists np, site. split; auto.
+  intros p s Hsh Hwf. eapply gen_sites_sound; eauto.
+Qed.
+
+(* a chain of calls of registered sites of the current source (same number of arguments), in any order and any number,
+   each starting from what the previous ones left: the inputs of the first call are unchanged at the end *)
+Theorem gen_sites_chain_sound : forall np ps s,
+  (forall p, In p ps -> exists sid site, In (sid, (np, site)) gen_site_table /\ shape p = shape site) ->
+  wf_init np s -> unchanged np s (run_calls np ps s).
+Proof.
+  intros np ps s Hall Hwf. apply safe_calls_chain; auto.
+  apply forallb_forall. intros p Hp. destruct (Hall p Hp) as [sid [site [Hin Hsh]]].
+  rewrite (safe_prog_shape np p site Hsh). eapply gen_site_safe; eauto.
 Qed.
 
 (* ---------------------------------------------------------------- model agrees => property holds *)
